@@ -269,6 +269,17 @@ func (p *Pool) Run(reqs []Req) []Obs {
 					continue
 				}
 				for k := j.lo; k < j.hi; k++ {
+					// the cap can be reached in the middle of a batch (a family in which every input hangs)
+					mu.Lock()
+					capped := p.Timeouts+p.Crashes >= maxPinned
+					if capped {
+						p.Skipped++
+					}
+					mu.Unlock()
+					if capped {
+						res[k] = Obs{Class: "skipped", Msg: "not run: the cap of pinned hangs/crashes was reached earlier in this batch"}
+						continue
+					}
 					if w == nil {
 						w = startWorker()
 					}
